@@ -1188,3 +1188,37 @@ package http2
 //@ assert@call:(*Conn).flushData#1 last: end <==> !(len(pb.body) > 0 || (pb.stream != nil && !pb.drained))
 //@ # nothing is written for a blocked body
 //@ assert@call:(*Conn).flushData#1 nonempty: n > 0 || end
+
+// ---- the read loop: frame sequencing around header blocks (RFC 7540 6.2, 6.10) and hand-off to the stream loop ----
+
+//@ func (*serverConn).handlePing
+//@ props C17
+//@ requires args: scOK(sc) && ping != nil
+//@ opt noframe=true
+
+//@ func (*serverConn).readLoop
+//@ props C08 C18 C16 C17 C10
+//@ requires recv: scOK(sc) && sc.br != nil && hpackOK(sc.enc)
+//@ opt noframe=true
+//@ modifies sc.clientS, capacity(sc.clientS.rawSettings), sc.enc.maxTableSizeSettings, sc.enc.maxTableSize, sc.enc.pendingSizeUpdate, sc.enc.dynamic, contents(sc.enc.dynamic), family(HeaderField),
+//@ |   sc.closeRef, sc.state, anybytes(), family(FrameHeader),
+//@ |   family(Data), family(Headers), family(Priority), family(RstStream), family(Settings), family(PushPromise), family(Ping), family(GoAway), family(WindowUpdate), family(Continuation)
+//@ loop 0: invariant inv: scOK(sc) && sc.br != nil && hpackOK(sc.enc)
+//@ ghost ec0 = 0
+//@ # the value of expectContinuation when the iteration starts: the stream whose header block is open, or 0
+//@ ghost@call:ReadFrameFromWithSize#1 ec0 = expectContinuation
+//@ # the frame-size limit handed to the reader is the one this endpoint advertised (C18)
+//@ assert@call:ReadFrameFromWithSize#1 ownlimit: arg1 == sc.st.frameSize
+//@ # while a header block is open nothing but its CONTINUATION frames reaches the rest of the server:
+//@ # frames on a stream ...
+//@ assert@send#1 seq: ec0 == 0 || (arg0.kind == 9 && arg0.stream == ec0)
+//@ assert@send#1 typed: arg0 != nil && arg0.fr != nil && 0 <= arg0.kind && arg0.kind <= 9 && frameTypeOK(arg0.fr, arg0.kind) && arg0.stream % 2 == 1
+//@ # ... and frames on stream 0
+//@ assert@send#2 seq0: ec0 == 0 && arg0.kind == 4 && arg0.stream == 0
+//@ assert@send#3 seq0: ec0 == 0 && arg0.kind == 8 && arg0.stream == 0
+//@ assert@call:(*serverConn).handleSettings#1 seq0: ec0 == 0
+//@ assert@call:(*serverConn).handlePing#1 seq0: ec0 == 0
+//@ # a CONTINUATION with no header block open never gets through
+//@ assert@send#1 cont: arg0.kind == 9 ==> ec0 != 0
+//@ # a connection-level WINDOW_UPDATE of 0 is a connection error, not forwarded (RFC 7540 6.9)
+//@ assert@send#3 nonzero: as(arg0.fr, *WindowUpdate).increment != 0
